@@ -69,6 +69,8 @@ class SymExec:
     def __init__(self, repo, index, cls_key):
         self.repo, self.ix, self.cls = repo, index, cls_key
         self.npaths = 0
+        self._ntypes = None         # named tuple classes of the package (lazily collected)
+        self._ntfields = {}         # tuple term -> field names, for named tuples built during the execution
         self.nonnull = self._nonnull_fields()
 
     def _nonnull_fields(self):
@@ -119,7 +121,11 @@ class SymExec:
                             return outs[0].retval if outs[0].retval is not None else NONE
                         return ('prop', f)
                 return ('old', f)
-            return ('attr', self.ev(e.value, st, depth), e.attr)
+            base = self.ev(e.value, st, depth)
+            names = self._ntfields.get(base) if base and base[0] == 'tuple' else None
+            if names and e.attr in names:
+                return base[1 + names.index(e.attr)]      # field of a named tuple built on this path
+            return ('attr', base, e.attr)
         if isinstance(e, ast.Subscript):
             return ('sub', self.ev(e.value, st, depth), self.ev_slice(e.slice, st, depth))
         if isinstance(e, ast.UnaryOp):
@@ -215,6 +221,17 @@ class SymExec:
         args = tuple(self.ev(a, st, depth) for a in e.args)
         kwargs = tuple(sorted((k.arg or '**', self.ev(k.value, st, depth)) for k in e.keywords))
         f = e.func
+        if isinstance(f, ast.Name) and f.id not in st.locals:
+            if self._ntypes is None:
+                self._ntypes = U.namedtuple_types([m.tree for m in self.repo.modules.values()])
+            flds = self._ntypes.get(f.id)
+            if flds and not any(isinstance(a, ast.Starred) for a in e.args) and all(k.arg for k in e.keywords):
+                kw = dict(kwargs)
+                if len(args) + len(kw) == len(flds) and set(kw) == set(flds[len(args):]):
+                    t = ('tuple',) + args + tuple(kw[n] for n in flds[len(args):])
+                    if self._ntfields.setdefault(t, tuple(flds)) != tuple(flds):
+                        self._ntfields[t] = ()
+                    return t
         is_self = isinstance(f, ast.Attribute) and isinstance(f.value, ast.Name) and f.value.id == 'self' and 'self' not in st.locals
         is_super = isinstance(f, ast.Attribute) and isinstance(f.value, ast.Call) and isinstance(f.value.func, ast.Name) and f.value.func.id == 'super'
         if (is_self or is_super) and depth < MAX_DEPTH:
